@@ -131,6 +131,24 @@ def run(ck):
             for tc in ['dt64_m'] + TIME_CARRIERS[1:]:
                 cx, ox = run_t(tc)
                 compare(ck, 'C15.time', test, tc + ':irregular-minutes', cb, ob, cx, ox)
+    # sampling that is not on whole seconds: epoch numbers with a fractional part are the same instants as their datetime spellings
+    tsub = [Fr(100), Fr(203, 2), Fr(103), Fr(209, 2), Fr(106), Fr(215, 2)]
+    fine = {
+        'rate_of_change_test': dict(threshold=Fr(1)),
+        'attenuated_signal_test': dict(suspect_threshold=Fr(2), fail_threshold=Fr(1), test_period=3, check_type='range', min_period=3),
+        'flat_line_test': dict(suspect_threshold=3, fail_threshold=6, tolerance=Fr(1)),
+    }
+    for test, kw in fine.items():
+        n = 5
+
+        def run_f(tc):
+            c = Case(test, [data_input('inp', 'p' * n, 'ndarray'), time_input('tinp', tsub[:n], tc)], dict(kw), n=n, pat={}, meta={'class': f'subsecond/{tc}'},
+                     label=f'{test}({"p" * n!r}; times {[str(x) for x in tsub[:n]]} s; time={tc})')
+            return c, run_case(ck, c, allow_refused=True)
+        cb, ob = run_f('dt64')
+        for tc in ('epoch_list', 'epoch_array', 'series', 'dtindex', 'dtindex_tz', 'pydatetime'):
+            cx, ox = run_f(tc)
+            compare(ck, 'C15.time', test, tc + ':sub-second', cb, ob, cx, ox)
     # pressure_increasing_test: present values only (the test documents no missing handling) + None vs NaN
     from ..cases import El as _El
     for vals in ([0, 1, 2], [2, 1, 0], [0, 2, 1, 3]):
